@@ -6,7 +6,7 @@
 (* to an operand-depth interval; this module keeps them.                         *)
 (*                                                                               *)
 (* State of one run (a record `m`):                                              *)
-(*   acts   : Seq([fi, ip, ops, sp, args, cb])  activations, innermost last      *)
+(*   acts   : Seq([fi, ip, ops, sp, args, cb, drv])  activations, innermost last *)
 (*            fi   index of the function in the dump F                           *)
 (*            ip   instruction pointer (0-based, as in the implementation)       *)
 (*            ops  local operating stack (values, top last)                      *)
@@ -39,7 +39,10 @@ EXTENDS MSLang
 
 NoCb == [has |-> FALSE, m |-> NoFrame]
 MFn(loc, cb) == [t |-> "fn", loc |-> loc, cb |-> cb]
-Act(fi, args, cb) == [fi |-> fi, ip |-> 0, ops |-> <<>>, sp |-> 0, args |-> args, cb |-> cb]
+(* drv: a running built-in driver (vector map / filter): the activation waits at its `call` while the machine runs the
+   callback once per element (RuntimeExecutionBridgeNotifier: wait_for / then / finish) *)
+NoDrv == [on |-> FALSE]
+Act(fi, args, cb) == [fi |-> fi, ip |-> 0, ops |-> <<>>, sp |-> 0, args |-> args, cb |-> cb, drv |-> NoDrv]
 FnFrame == [blk |-> FALSE, vars |-> NoFrame]
 BlkFrame == [blk |-> TRUE, vars |-> NoFrame]
 
@@ -128,12 +131,25 @@ FnIndex(F, loc) == LET S == {k \in 1..Len(F) : F[k].qn = loc} IN IF S = {} THEN 
 (* a return (ret / ret_mod / falling off the end): the activation ends, the caller's *)
 (* pending call instruction completes                                                *)
 Return(m, hasv, v, k) ==
-    LET m1 == PopFrames(m, k)
+    LET rv == IF hasv THEN Deref(m, v) ELSE VNil
+        m1 == PopFrames(m, k)
         rest == SubSeq(m1.acts, 1, Len(m1.acts) - 1) IN
     IF rest = <<>> THEN [m1 EXCEPT !.acts = <<>>, !.st = "halt"]
-    ELSE LET c == rest[Len(rest)]
-             c1 == Adv(IF hasv THEN PushV(c, v) ELSE c) IN
-         [m1 EXCEPT !.acts = [rest EXCEPT ![Len(rest)] = c1]]
+    ELSE LET c == rest[Len(rest)] IN
+         IF c.drv.on THEN
+              \* `then`: collect the result; `wait_for` the next element of the (live) list, or `finish`
+              LET d == c.drv
+                  acc == IF d.k = "map" THEN (IF hasv THEN Append(d.acc, rv) ELSE d.acc)
+                         ELSE (IF hasv /\ rv.t = "bool" /\ rv.b THEN Append(d.acc, m.lists[d.id][d.i]) ELSE d.acc)
+                  more == d.i + 1 <= Len(m.lists[d.id]) IN
+              IF more THEN
+                   [m1 EXCEPT !.acts = Append([rest EXCEPT ![Len(rest)] = [c EXCEPT !.drv = [d EXCEPT !.i = d.i + 1, !.acc = acc]]],
+                                               Act(d.fi, <<m.lists[d.id][d.i + 1]>>, d.cb)),
+                              !.frames = Append(m1.frames, FnFrame)]
+              ELSE [m1 EXCEPT !.acts = [rest EXCEPT ![Len(rest)] = Adv([c EXCEPT !.ops = <<VList(Len(m.lists) + 1)>>, !.drv = NoDrv])],
+                              !.lists = Append(m.lists, acc)]
+         ELSE LET c1 == Adv(IF hasv THEN PushV(c, v) ELSE c) IN
+              [m1 EXCEPT !.acts = [rest EXCEPT ![Len(rest)] = c1]]
 
 Enter(m, a0, fi, args, cb) ==       \* a0 = the caller with its operands already cleared; it stays at the call
     LET m0 == SetTop(m, a0) IN
@@ -152,7 +168,7 @@ BinResult(m, op, l, r) == BinOp(IF op = "=" THEN "==" ELSE op, Deref(m, l), Dere
 (* the hook's name of the Primitive variant of a printed scalar ("" = not compared) *)
 KindName(v) == CASE v.t = "int" -> "Int" [] v.t = "bool" -> "Bool" [] v.t = "str" -> "Str" [] OTHER -> ""
 (* built-in methods the machine runs through MSLang!Builtin (those that do not call back into bytecode) *)
-BuiltinNames == {"len", "push", "remove", "reverse", "clear", "clone", "join", "index_of", "is_closure",
+BuiltinNames == {"len", "push", "remove", "reverse", "clear", "clone", "join", "index_of", "is_closure", "map", "filter",
                  "contains_key", "replace", "keys", "values", "pairs"}
 VoidBuiltins == {"push", "reverse", "clear"}
 (* a position inside a list whose order the model does not prescribe (keys / values / pairs of a map): the value *)
@@ -301,7 +317,17 @@ Exec1(F, m) ==
             ELSE LET f == Deref(m, a.ops[n])
                      recv == Deref(m, a.ops[1])
                      rest == DerefAll(m, SubSeq(a.ops, 2, n - 1)) IN
-                 IF f.m = "is_closure" THEN
+                 IF f.m \in {"map", "filter"} THEN
+                      (IF recv.t # "list" \/ Len(rest) # 1 THEN FailM(m, "machine")
+                       ELSE IF rest[1].t # "fn" THEN OomM(m, f.m \o " with a built-in as callback")
+                       ELSE LET fi == FnIndex(F, rest[1].loc) IN
+                            IF fi = 0 THEN OomM(m, "callback " \o rest[1].loc)
+                            ELSE IF m.lists[recv.id] = <<>> THEN
+                                 [SetTop(m, Adv([a EXCEPT !.ops = <<VList(Len(m.lists) + 1)>>])) EXCEPT !.lists = Append(@, <<>>)]
+                            ELSE Enter(m, [a EXCEPT !.ops = <<>>, !.drv = [on |-> TRUE, k |-> f.m, id |-> recv.id, i |-> 1, acc |-> <<>>,
+                                                                            fi |-> fi, cb |-> rest[1].cb]],
+                                       fi, <<m.lists[recv.id][1]>>, rest[1].cb))
+                 ELSE IF f.m = "is_closure" THEN
                       (IF recv.t # "fn" THEN OomM(m, "is_closure on " \o recv.t)
                        ELSE SetTop(m, Adv([a EXCEPT !.ops = <<VBool(recv.cb.has)>>])))
                  ELSE IF recv.t = "fn" \/ (f.m = "index_of" /\ \E k \in 1..Len(rest) : HasFn(m, rest[k], 3)) THEN OomM(m, "built-in " \o f.m \o " with a function")
